@@ -12,6 +12,41 @@ NEUTRAL_REF = [
 ]
 
 
+def ecdh_neutral_rule(check, repo):
+    """DH._compute_ecdh: an exchange whose result is the neutral element is refused with ValueError before any byte of
+    the shared secret is produced - for both point models: a Weierstrass point at infinity reads x = 0 (no exception),
+    a Montgomery (X25519/X448) one has no x (ValueError from the getter)."""
+    from ..absint import Interp
+    from ..absstate import State
+    DH = "Crypto.Protocol.DH"
+    dmod = repo.module(DH)
+    fn = repo.func(dmod, "_compute_ecdh")
+    for model in ("weierstrass", "montgomery"):
+        for inf in (True, False):
+            def m_x(i, st2, model=model, inf=inf):
+                if inf and model == "montgomery":
+                    i._diverged = i.do_raise("ValueError", st2, None)
+                    return 0
+                return 0 if inf else 5
+            it = Interp(repo, max_depth=1, method_models={"is_point_at_infinity": lambda i, base, a, kw, st, node, inf=inf: inf,
+                                                           "size_in_bytes": lambda i, base, a, kw, st, node: 32})
+            st = State()
+            P = it.new_obj(st, label="P")
+            pub = it.new_obj(st, label="pub", attrs={"pointQ": it.new_obj(st, label="Q")})
+            priv = it.new_obj(st, label="priv", attrs={"d": 3, "curve": "NIST P-256" if model == "weierstrass" else "Curve25519"})
+            it.inject = {"key_pub.pointQ * key_priv.d": P, "pointP.x": m_x}
+            res = it.run(dmod, fn, {"key_priv": priv, "key_pub": pub}, state=st)
+            if inf:
+                ok = res.rejected() and all("ValueError" in it.exc_mro(o.exc, dmod) for o in res.raises())
+                check.ob("D", "D|ecdh.neutral.%s" % model, ok, dmod.path, fn.lineno,
+                         extracted="neutral result (%s point): %s" % (model, "refused with " + ",".join(res.raise_classes()) if res.rejected() else "a shared secret is returned"),
+                         expected="an exchange whose result is the neutral element raises ValueError")
+            else:
+                ok = not res.rejected()
+                check.ob("D", "D|ecdh.regular.%s" % model, ok, dmod.path, fn.lineno,
+                         extracted="regular result: %s" % ("secret returned" if ok else "refused"), expected="returns the x coordinate")
+
+
 def neutral_predicate_rows(check, repo):
     """EccPoint.is_point_at_infinity / point_at_infinity / EccXPoint.is_point_at_infinity: the predicate is true for
     the neutral element of the curve model and for no other point - in particular not for the other points that share
